@@ -41,8 +41,10 @@ func init() {
 			{ID: "J3", Floor: 6, Doc: "L(T) = XML name of T = Type constant of T's object id", Run: c05J3},
 			{ID: "J4", Floor: 3, Doc: "nilable shim fields are nil-tested on every path to a formatting/conversion call", Run: c05J4},
 			{ID: "J5", Floor: 56, Doc: "shapes (tags object, node id array, members never null, null date), osmjson key names, codec routing", Run: c05J5},
+			{ID: "J6", Floor: 1, Doc: "interface-typed shim fields (version: number or string) are converted totally over dynamic types", Run: c05J6},
 		},
 		Mutants: []core.Mutant{
+			{Name: "j6-version-type-switch-no-default", File: "osm.go", Find: "\tif s.Version != nil {\n\t\to.Version = fmt.Sprintf(\"%v\", s.Version)\n\t}", Replace: "\tswitch v := s.Version.(type) {\n\tcase string:\n\t\to.Version = v\n\tcase float64:\n\t\to.Version = fmt.Sprint(v)\n\t}", ExpectRule: "J6", ExpectConstruct: "Version"},
 			{Name: "way-type-key-renamed", File: "way.go", Find: "xmlNameJSONTypeWay `xml:\"way\" json:\"type\"`", Replace: "xmlNameJSONTypeWay `xml:\"way\" json:\"kind\"`", ExpectRule: "J1", ExpectConstruct: "type@Way"},
 			{Name: "license-not-written", File: "osm.go", Find: "}{o.Version, o.Generator, o.Copyright, o.Attribution, o.License, o.Objects()}", Replace: "}{o.Version, o.Generator, o.Copyright, o.Attribution, \"\", o.Objects()}", ExpectRule: "J1", ExpectConstruct: "carried@OSM.License"},
 			{Name: "note-type-not-literal", File: "json.go", Find: "func (x xmlNameJSONTypeNote) MarshalJSON() ([]byte, error) {\n\treturn []byte(`\"note\"`), nil", Replace: "func (x xmlNameJSONTypeNote) MarshalJSON() ([]byte, error) {\n\treturn marshalJSON(x.Local)", ExpectRule: "J1", ExpectConstruct: "type@Note"},
